@@ -40,34 +40,40 @@ Definition policy_eqb (a b : policy) : bool :=
   Z.eqb ka kb && Z.eqb na nb.
 
 (* ---- the recorded cachecontrol table ---- *)
-(* CCE kind neg n store has_lifetime lneg l : for the header set (kind, +-n) the library said
-   store (no error, no reasons) and returned an expiry of call time +-l seconds, or the zero time *)
+(* CCE kind neg n store has_lifetime lneg l nocache : for the header set (kind, +-n)
+   cachecontrol.CachableResponse said store (no error, no reasons) and returned an expiry of call
+   time +-l seconds, or the zero time; cacheobject.ParseResponseCacheControl reported NoCachePresent
+   = nocache *)
 Inductive ccentry := CCE (pk : int) (neg : bool) (n : int) (store : bool)
-                         (haslt : bool) (lneg : bool) (l : int).
+                         (haslt : bool) (lneg : bool) (l : int) (nocache : bool).
 
 Definition cc_of_table (tab : list ccentry) (p : policy) : option ccdec :=
   match find (fun e => match e with
-                       | CCE pk neg n _ _ _ _ =>
+                       | CCE pk neg n _ _ _ _ _ =>
                            match policy_of pk (zs neg n) with
                            | Some q => policy_eqb p q
                            | None => false
                            end
                        end) tab with
-  | Some (CCE _ _ _ store haslt lneg l) => Some (store, if haslt then Some (zs lneg l) else None)
+  | Some (CCE _ _ _ store haslt lneg l nocache) =>
+      Some (store, (if haslt then Some (zs lneg l) else None), nocache)
   | None => None
   end.
 
 (* the assumption of Theory.load_no_reuse_headers, checked on the recorded table *)
 Definition forbids_b (p : policy) : bool :=
   match p with PNoStore | PPrivate | PPrivateMaxAge _ | PNoStoreMaxAge _ => true | _ => false end.
+Definition revalidate_b (p : policy) : bool :=
+  match p with PNoCache | PNoCacheMaxAge _ => true | _ => false end.
 Definition no_freshness_b (p : policy) : bool :=
   match p with PNone | PNoCache | PExpiresInvalid => true | _ => false end.
 
 Definition cc_table_respects_headers (tab : list ccentry) : bool :=
   forallb (fun e => match e with
-                    | CCE pk neg n store haslt _ _ =>
+                    | CCE pk neg n store haslt _ _ nocache =>
                         match policy_of pk (zs neg n) with
                         | Some p => (if forbids_b p then negb store else true) &&
+                                    (if revalidate_b p then nocache else true) &&
                                     (if no_freshness_b p then negb haslt else true)
                         | None => false
                         end
@@ -133,7 +139,7 @@ Definition cfg_of (cctab : list ccentry) (r : rcfg) : option config :=
       | Some cm =>
           Some {| cache_mode_of := cm; ipfs_client := cli; gateway := gw;
                   url_ok := fun u => match lookup_s u tab with Some b => b | None => false end;
-                  cc := fun p => match cc_of_table cctab p with Some d => d | None => (false, None) end |}
+                  cc := fun p => match cc_of_table cctab p with Some d => d | None => (false, None, false) end |}
       | None => None
       end
   end.
@@ -249,6 +255,7 @@ Definition hmismatches (cctab : list ccentry) (cs : list hcase) : list int :=
 Inductive reop :=
 | ESet (k : string) (v : int) (neg : bool) (dt : int)   (* Set(k, doc v, now + dt) *)
 | EGet (k : string) (expect : rdump)
+| ERaw (k : string) (expect : rdump)                    (* the raw map at k (verif hook) *)
 | ETick (dt : int).
 
 Fixpoint engine_run (cfg : config) (st : state) (l : list reop) : bool :=
@@ -260,6 +267,7 @@ Fixpoint engine_run (cfg : config) (st : state) (l : list reop) : bool :=
       | None => false
       end
   | EGet k x :: t => dump_agree (engine_get cfg st k) x && engine_run cfg st t
+  | ERaw k x :: t => raw_agree (assoc String.eqb k (cache st)) x && engine_run cfg st t
   | ETick dt :: t => engine_run cfg (set_now st (now st + zi dt)) t
   end.
 
